@@ -68,6 +68,7 @@ SUBCOMMANDS = [
 
 def matrix(dud, drv, base, R):
     """every subcommand x {root, nested dir} x {success, failure}: the lock must be gone afterwards"""
+    prelock_n = [0]
     viol, diverged = [], []
     lines, obs, descr = [], [], []
     k = 0
@@ -97,7 +98,12 @@ def matrix(dud, drv, base, R):
                         with open(os.path.join(root, ".dud", "index"), "a") as f:
                             f.write("does-not-exist.yaml\n")
                 if outcome == "prelocked":
-                    open(os.path.join(root, ".dud", "lock"), "w").close()
+                    # the holder may be a dud on another host sharing the directory: whatever the lock file contains
+                    # (nothing, the PID of a process that no longer exists here, garbage) it is the holder's lock
+                    dead = subprocess.Popen(["true"]); dead.wait()
+                    prelock_n[0] += 1
+                    with open(os.path.join(root, ".dud", "lock"), "w") as f:
+                        f.write(["", "%d\n" % dead.pid, "%d" % dead.pid, "not-a-pid\n"][prelock_n[0] % 4])
                 if outcome.endswith("unwritable"):
                     # the profile / trace output cannot be written (disk full): the command fails at the very end
                     flag = "--profile" if outcome.startswith("profile") else "--trace"
